@@ -9,7 +9,8 @@ Definition c19_size_pf : C19_size := c19_size_proof.
 Definition c19_next_pf : C19_next := c19_next_proof.
 Definition c19_previous_pf : C19_previous := c19_previous_proof.
 Definition c19_isnext_pf : C19_isnext := c19_isnext_proof.
-Definition c19_split_pf : C19_split := c19_split_proof.
+Definition c19_split_partial_pf : C19_split_partial := c19_split_partial_proof.
+Definition c19_split_exact_pf : C19_split_exact := c19_split_exact_proof.
 Definition c19_split_full_refuted_pf : C19_split_full_refuted := c19_split_full_refuted_proof.
 Definition c19_not_split_full_pf : ~ C19_split_full := not_c19_split_full.
 Definition c19_split_unfixed_refuted_pf : C19_split_unfixed_refuted := c19_split_unfixed_refuted_proof.
